@@ -36,9 +36,9 @@ func body(kinds string, strat group.ExecutionStrategy) func() {
 	return func() {
 		parent, cancelParent := context.WithCancel(context.Background())
 		defer cancelParent()
-		tid := make([]int, n)      // thread id that ran member i
-		rets := make([]*ret, n)    // what member i returned
-		calls := make([]int, n)    // how often member i was called
+		tid := make([]int, n)   // thread id that ran member i
+		rets := make([]*ret, n) // what member i returned
+		calls := make([]int, n) // how often member i was called
 		var callOrder []int
 		members := make([]group.Member, n)
 		for i := range members {
